@@ -15,7 +15,7 @@ Seen(e) == e.vlo = e.lo /\ e.vhi = e.hi /\ e.vval = e.val /\ e.drv = e.val
 
 TInit == /\ t \in 1 .. NT /\ l = 2
          /\ LET e == Traces[t][1] IN
-              /\ kind = e.kind /\ forb = ToSet(e.forbidden)
+              /\ kind = e.kind /\ forb = ToSet(e.forbidden) /\ hexc = e.hexc
               /\ lo = e.lo /\ hi = e.hi /\ val = e.val /\ last = "ok"
               /\ Lo <= lo /\ lo <= Hi /\ Lo <= hi /\ hi <= Hi /\ (kind = "limits" => lo <= hi)
               /\ e.cfg = <<lo, hi>>      \* the limit parameters start with the configured values
